@@ -20,7 +20,8 @@ EXPLANATION = (
     "alpha = e^(-delay/tau). Gammatone sampled/slaney sections are f / abs(f.freq_response(freq)) with the function's "
     "own freq (unit gain at the centre frequency by construction); klapuri is the cascade of z_exp and poles_exp "
     "resonators twice, sharing freq and 2*bandwidth through hubs. Not decided: monotonicity, |R| < 1 for all cut-offs "
-    "(numeric), resonator peak gain.")
+    "(numeric), resonator peak gain."
+    " Also: Resonators: |H|^2 = 1 at the resonant frequency is proved as a polynomial identity in R and cos (modulo sqrt^2, sin^2 relations) for all four strategies; z-type numerators are gain * (1 - z^-2). ")
 
 UNDECIDED = ["monotone magnitude response", "numeric pole radius < 1 over the whole cut-off range", "resonator peak gain"]
 
